@@ -7,7 +7,7 @@ TRUSTED = [
     "harness/satfunc.cpp (real PiecewiseLinearTwoPhaseMaterial / EclEpsTwoPhaseLaw / EclHysteresisTwoPhaseLaw templates instantiated directly) + lib/vlib.py differ; model driver (compiled Lean at IEEE double, operation order mirrored, bit-exact comparison)",
     "harness/satdeck.cpp (random decks -> real Parser -> EclipseState -> EclMaterialLawManager::initFromState/initParamsForElements; hands the model the tables as the TableManager holds them and the end-point arrays as the field properties hold them, both in SI: the text -> number and unit conversion steps belong to C01/C16/C19, not to this check)",
     "Float ~ R: theorems are over a linearly ordered field",
-    "modelled, not verified: Stone 1 / Stone 2, the two-phase and gas-water multiplexer branches, LET and SLGOF / family III tables, JFUNC (Leverett) and SWATINIT / PPCWMAX, ENPTVD/ENKRVD depth tables, directional (KRNUMX..) and LGR lookups, WAG and capillary-pressure hysteresis, Killough for the wetting phase (model 4)",
+    "modelled, not verified: Stone 1 / Stone 2, the two-phase and gas-water multiplexer branches at deck level (the gas-water hysteresis object is modelled and corresponded at template level only), LET and SLGOF / family III tables, JFUNC (Leverett) and SWATINIT / PPCWMAX, ENPTVD/ENKRVD depth tables, directional (KRNUMX..) and LGR lookups, WAG hysteresis",
 ]
 
 
@@ -16,7 +16,7 @@ def run(ctx):
         "tables: Sw strictly increasing, krw non-decreasing, krn and pc non-increasing; first relperm sample of every increasing column <= TOLCRIT (otherwise crit_sat_increasing_KR reads sat[-1]) and last sample of every decreasing column <= TOLCRIT",
         "a non-empty two-phase mobile range (table SWCR < 1 - SOWCR - SGL etc.): otherwise the three-point vertical scaling divides 0 by 0 (the deck generator of the property mode keeps to it; the correspondence does not and compares NaN with NaN)",
         "PCW / PCG only for regions whose table has a non-zero maximum capillary pressure (else 0 * (PCW / 0) = NaN, design.d/C15.md finding F-C15-1)",
-        "hysteresis at deck level: Carlson (EHYSTR item 2 = 0/1, flag KR); Killough (2/3) at template level; no WAG",
+        "hysteresis: EHYSTR item 2 = 0..4, flag KR / PC / BOTH at template and deck level (complete EclHysteresisTwoPhaseLawParams object, Model/HystFull.lean); no WAG; the Killough statements of the property mode apply where the imbibition critical saturation is not below the drainage one (decided from the input end-points)",
         "three phases, default three-phase oil relperm model",
     ]
     if not ctx.stage_build_opm():
